@@ -28,6 +28,9 @@ type trieIn struct {
 	KVs  [][2]string `json:"sets"` // hex key, hex value, in order
 	Dels []string    `json:"deletes"`
 	Seed int64       `json:"query_seed"`
+	// First: what is called first on the fresh snapshot: "" / "hash" = Hash(), "proof" =
+	// GetProof of a stored key, "proof-absent" = GetProof of an absent key, "flush" = Flush()
+	First string `json:"first_call,omitempty"`
 }
 
 func hx(b []byte) string { return hex.EncodeToString(b) }
@@ -168,9 +171,51 @@ func runTrie(in trieIn, wantCoq bool) (out runOut) {
 		cdels = append(cdels, k)
 	}
 	s := m.GetSnapshot()
+	// the order of the first calls on a fresh snapshot is part of the case: GetProof has to
+	// hash the trie itself when nothing did before
+	var preKey []byte
+	var preProof [][]byte
+	havePre := false
+	switch in.First {
+	case "proof", "proof-absent":
+		var ks []string
+		for k := range ref {
+			ks = append(ks, k)
+		}
+		sort.Strings(ks)
+		if len(ks) > 0 {
+			preKey = []byte(ks[int(in.Seed%int64(len(ks))+int64(len(ks)))%len(ks)])
+			if in.First == "proof-absent" {
+				preKey = append(append([]byte(nil), preKey...), 0x5a)
+				if _, ok := ref[string(preKey)]; ok {
+					preKey = append(preKey, 0x5a)
+				}
+			}
+			if pn := hxlib.Catch(func() { preProof = s.GetProof(preKey) }); pn != "" {
+				fail("GetProof(%x) as the first call on a snapshot panics: %s", preKey, pn)
+			}
+			havePre = true
+		}
+	case "flush":
+		if err := s.Flush(); err != nil {
+			fail("Flush as the first call on a snapshot: %v", err)
+		}
+	}
 	root := s.Hash()
 	s.Flush()
 	out.nhashed = len(d.Nodes)
+	if len(ref) > 0 && len(root) != 32 {
+		fail("Hash() (first call: %q) returns %d bytes %x, not a 32-byte hash", in.First, len(root), root)
+	}
+	{
+		rs, rd := tl.Rebuild(ref, r)
+		if !bytes.Equal(rs.Hash(), root) {
+			fail("Hash() (first call: %q) = %x differs from the root %x of a trie rebuilt from the same pairs", in.First, root, rs.Hash())
+		}
+		for k := range rd.Nodes {
+			d.Nodes[k] = true
+		}
+	}
 
 	bl := &blobs{idx: map[string]int{}}
 	var nodes [][]byte
@@ -260,6 +305,20 @@ func runTrie(in trieIn, wantCoq bool) (out runOut) {
 	r.Read(rk)
 	addKey(rk)
 
+	if havePre {
+		addQ(fmt.Sprintf("QGetProof %s %s", tl.Bx(preKey), bl.refs(preProof)))
+		want, isStored := ref[string(preKey)]
+		if isStored && len(preProof) == 0 {
+			fail("GetProof(%x) called before Hash() returns no proof for a stored key", preKey)
+		}
+		obs := prove(root, preKey, preProof, fmt.Sprintf("proof of key %x taken before Hash()", preKey), false)
+		if isStored && !(obs.class == "val" && bytes.Equal(obs.val, want)) {
+			fail("completeness: the proof of stored key %x taken before Hash() does not verify against the root (result %s %x)", preKey, obs.class, obs.val)
+		}
+		if !isStored && obs.class == "val" {
+			fail("proof check for absent key %x yields value %x", preKey, obs.val)
+		}
+	}
 	proofs := map[string][][]byte{}
 	for _, k := range order {
 		var p [][]byte
@@ -385,6 +444,28 @@ func genTrie(r *rand.Rand) trieIn {
 		in.Dels = append(in.Dels, hx(keys[r.Intn(len(keys))]))
 	}
 	in.Seed = r.Int63()
+	in.First = []string{"hash", "proof", "proof", "proof-absent", "flush"}[r.Intn(5)]
+	return in
+}
+
+// a trie whose root node serialises to at most 32 bytes (or just above): one or two
+// short keys with short values
+func genTiny(r *rand.Rand) trieIn {
+	keys := [][]byte{{}, {0x00}, {0x01}, {0x01, 0x02}, {0xab}, {0xab, 0xcd, 0xef}, {0x10}, {0x1f}}
+	var in trieIn
+	n := 1 + r.Intn(2)
+	perm := r.Perm(len(keys))
+	for i := 0; i < n; i++ {
+		v := make([]byte, 1+r.Intn(8))
+		r.Read(v)
+		if r.Intn(4) == 0 {
+			v = make([]byte, 20+r.Intn(12)) // root RLP around the 32-byte threshold
+			r.Read(v)
+		}
+		in.KVs = append(in.KVs, [2]string{hx(keys[perm[i]]), hx(v)})
+	}
+	in.Seed = r.Int63()
+	in.First = []string{"proof", "proof", "proof-absent", "hash", "flush"}[r.Intn(5)]
 	return in
 }
 
@@ -409,7 +490,7 @@ func gen(c *hxlib.Ctx) {
 	}()
 	emit := func(kind string, in trieIn, key string) {
 		out := safeRun(in, !c.OracleOnly)
-		c.Emit(hxlib.Case{Kind: kind, Coq: out.coq, Input: in, Nontrivial: out.nhashed >= 2 && out.nq >= 10,
+		c.Emit(hxlib.Case{Kind: kind, Coq: out.coq, Input: in, Nontrivial: (out.nhashed >= 2 && out.nq >= 10) || kind == "tiny-trie",
 			OracleErr: out.oracle, Key: key})
 		for k, v := range out.classes {
 			total[k] += v
@@ -433,6 +514,9 @@ func gen(c *hxlib.Ctx) {
 	n := c.N(70)
 	for i := 0; i < n; i++ {
 		emit("trie", genTrie(c.Sub("trie", i)), fmt.Sprintf("t%d", i))
+		if i%2 == 0 {
+			emit("tiny-trie", genTiny(c.Sub("tiny", i)), fmt.Sprintf("y%d", i))
+		}
 	}
 	if !c.OracleOnly {
 		// canary: a genuine proof recorded with a wrong verdict
@@ -460,7 +544,7 @@ func replay(raw json.RawMessage) string {
 func main() {
 	hxlib.Main(hxlib.Spec{
 		ID:       "C18",
-		Rule:     "a case is one trie (3-14 keys of 0-4 bytes with shared prefixes plus 32-byte keys differing in one nibble, values 1-70 bytes around the inlining threshold, a quarter of the keys deleted again) with: GetProof+Prove for up to 8 stored keys, the byte prefixes / extensions / siblings of stored keys and a random key; for 3 stored keys every proof element bit-flipped, replaced by another node, dropped, swapped, duplicated, trailing elements appended, the proof presented for other keys, against a random root, the empty root, an inner node's hash and the root of a trie with one more pair; corpus cases first; non-trivial = at least two hashed nodes and ten queries; distinct = distinct trie",
+		Rule:     "a case is one trie, with the first call on its fresh snapshot drawn from Hash/GetProof of a stored key/GetProof of an absent key/Flush (GetProof must hash the trie itself), either tiny (1-2 short keys, root node around or below the 32-byte embedding size) or regular (3-14 keys of 0-4 bytes with shared prefixes plus 32-byte keys differing in one nibble, values 1-70 bytes around the inlining threshold, a quarter of the keys deleted again) with: GetProof+Prove for up to 8 stored keys, the byte prefixes / extensions / siblings of stored keys and a random key; for 3 stored keys every proof element bit-flipped, replaced by another node, dropped, swapped, duplicated, trailing elements appended, the proof presented for other keys, against a random root, the empty root, an inner node's hash and the root of a trie with one more pair; corpus cases first; non-trivial = at least two hashed nodes and ten queries; distinct = distinct trie",
 		Shard:    10,
 		Preamble: tl.Preamble("C18"),
 		Gen:      gen, Replay: replay,
